@@ -185,10 +185,34 @@ func c15Worker(ctx *core.Ctx) *core.Result {
 				}
 			}
 		}
-		check := func(banners map[int]sim.BannerSpec, desc string) {
-			r := runDialogue(x.scr, sc, runOpts{banners: banners})
+		quiet := false
+		failed := false
+		var check func(banners map[int]sim.BannerSpec, desc string)
+		// harmlessAlone: does this single banner pass all checks on its own?
+		// (a pair is only informative if both of its banners do)
+		harmlessAlone := func(p int, b sim.BannerSpec) bool {
+			quiet, failed = true, false
+			nv, nc := len(x.res.Violations), x.res.ViolationCount
+			check(map[int]sim.BannerSpec{p: b}, "component")
+			x.res.Violations, x.res.ViolationCount = x.res.Violations[:nv], nc
+			quiet = false
+			return !failed
+		}
+		_ = harmlessAlone
+		var second map[string]sim.BannerSpec // pair mode: the later banner, tied to its command text
+		pairSig := ""                        // pair mode: structural signature
+		check = func(banners map[int]sim.BannerSpec, desc string) {
+			r := runDialogue(x.scr, sc, runOpts{banners: banners, bannersByText: second})
 			x.res.Evaluations++
-			x.res.Nontrivial++
+			if !quiet {
+				x.res.Nontrivial++
+			}
+			nv0 := len(x.res.Violations)
+			defer func() {
+				if len(x.res.Violations) > nv0 {
+					failed = true
+				}
+			}()
 			c := &dcase{sc: sc, dev: map[int]string{}, desc: desc}
 			c.sc = sc
 			sigBase := desc
@@ -198,6 +222,9 @@ func c15Worker(ctx *core.Ctx) *core.Result {
 			for p := range banners {
 				sigBase = cmdClassAt(base, p) + ":" + sigBase
 				break
+			}
+			if pairSig != "" {
+				sigBase = pairSig
 			}
 			got := iosChangeLines(r)
 			switch {
@@ -272,12 +299,38 @@ func c15Worker(ctx *core.Ctx) *core.Result {
 						return x.res
 					}
 					desc := fmt.Sprintf("%s/%s/%s+%s/%s/%s@%d,%d", a.spec.Kind, a.spec.Form, a.spec.Where, b.spec.Kind, b.spec.Form, b.spec.Where, a.point, b.point)
-					check(map[int]sim.BannerSpec{a.point: a.spec, b.point: b.spec}, desc)
+					if !harmlessAlone(a.point, a.spec) || !harmlessAlone(b.point, b.spec) {
+						// one banner of the pair fails on its own (reported by the
+						// single-banner pass): the pair tells nothing new
+						x.res.Count("banner_pairs_with_failing_component", 1)
+						continue
+					}
+					// the later banner is tied to its command, not to its point:
+					// the re-arm dialogue caused by the earlier banner shifts the points
+					second = map[string]sim.BannerSpec{b.text: b.spec}
+					// both banners land in one answer when the first arrives behind
+					// the prompt of its command and the second with the very next one
+					dist := "apart"
+					if b.point == nextWindowPoint(window, a.point) {
+						dist = "adjacent"
+					}
+					pairSig = "pair:" + a.spec.Where + "+" + b.spec.Where + ":" + dist
+					check(map[int]sim.BannerSpec{a.point: a.spec}, desc)
+					second, pairSig = nil, ""
 				}
 			}
 		}
 	}
 	return x.res
+}
+
+func nextWindowPoint(window []sim.Rec, p int) int {
+	for i, t := range window {
+		if t.Point == p && i+1 < len(window) {
+			return window[i+1].Point
+		}
+	}
+	return -1
 }
 
 // rearmCheck: after the command at point p (whose answer carried the
